@@ -204,9 +204,16 @@ def oracle_c14(tr: Trace):
         if (st.tag == 7 and st.op[1] == 2) or (st.tag == 3 and st.ob["exc"] >= 200):
             return      # the environment removed a file mid-transfer: outside the property's histories from here on
         evs = st.ob["events"]
+        for e in evs:
+            if e[0] in (1, 2, 3, 4, 5, 6) and len(e) > 2 and (e[1] < 0 or e[2] < 0):
+                raise Failure(f"C14 indication kind {e[0]} refers to a missing transaction id (op {st.i})")
         fe = [e for e in evs if 11 <= e[0] <= 14]
         if not fe:
             continue
+        # an abandoned transaction is dropped silently: nothing else is reported by that call after the abandon callback
+        ab = [j for j, e in enumerate(evs) if e[0] == 14]
+        if ab and ab[0] != len(evs) - 1:
+            raise Failure(f"C14 events {evs[ab[0] + 1:]} were issued after the abandon callback in the same call (op {st.i})")
         pf = st.prev["fields"] if st.prev else None
         seen = {}
         for e in fe:
@@ -230,12 +237,15 @@ def oracle_c14(tr: Trace):
         for cond, n in seen.items():
             if n > 1:
                 if cond == 5:
-                    raise Failure(f"F15 Checksum Failure declared {n} times for one verification (op {st.i})")
+                    raise Failure(f"C14 Checksum Failure declared {n} times for one verification [fixed finding F15 is back] (op {st.i})")
                 if cond == 7 and table.get(7) == 3:
                     raise Failure(f"F22 NAK Limit Reached with handler IGNORE declared {n} times by one call (op {st.i})")
                 raise Failure(f"C14 condition {cond} reported {n} times by one call (op {st.i})")
         # effect of the configured handler
         f = st.ob["fields"]
+        if st.ob["exc"] >= 100:
+            raise Failure(f"C14 the call that declared fault(s) {[(e[3], e[0] - 10) for e in fe]} (condition, handler code) raised "
+                          f"exception code {st.ob['exc']} instead of carrying out the configured handler (op {st.i})")
         for e in fe:
             kind, src, seq, cond, progress = e
             if kind == 14 and table.get(cond) == 4:
